@@ -105,13 +105,10 @@ pub enum TruthError {
 /// carry the sequence)?  Paris/Dublin use a per-round port, so probes of different rounds that
 /// share a sequence number may still be told apart by it.
 fn identity_matches(_cfg: &TraceCfg, a: &SendRec, b: &SendRec) -> bool {
-    use crate::wire::L4;
-    match (a.wire.as_ref().map(|w| &w.l4), b.wire.as_ref().map(|w| &w.l4)) {
-        (Some(L4::Udp { sport: s1, dport: d1, .. }), Some(L4::Udp { sport: s2, dport: d2, .. })) => s1 == s2 && d1 == d2,
-        (Some(L4::Tcp { sport: s1, dport: d1 }), Some(L4::Tcp { sport: s2, dport: d2 })) => s1 == s2 && d1 == d2,
-        (Some(L4::IcmpEcho { id: i1, .. }), Some(L4::IcmpEcho { id: i2, .. })) => i1 == i2,
-        _ => false,
-    }
+    // The tracer validates the fixed port(s), the destination address and (ICMP) the trace
+    // identifier only; the per-round port of Paris / Dublin is not checked.  All probes of one
+    // run share those, so two probes with the same sequence are indistinguishable to it.
+    a.wire.is_some() && b.wire.is_some()
 }
 
 /// Derive the ground truth from the event log.
@@ -200,6 +197,12 @@ pub fn truth(log: &RunLog) -> Result<Truth, TruthError> {
                 let s = &log.sends[*send_idx];
                 if s.round != publishes {
                     late_read += 1;
+                    let q = s.wire.as_ref().and_then(|w| wire_sequence(cfg, w));
+                    let aliased = q.is_some()
+                        && log.sends.iter().any(|x| x.round == publishes && x.wire.as_ref().and_then(|w| wire_sequence(cfg, w)) == q);
+                    if aliased {
+                        return Err(TruthError::Excluded("stale TCP connect names a re-issued sequence (C07 domain)".into()));
+                    }
                 }
                 if first_read[*send_idx].is_none() {
                     let meta = PktMeta {
